@@ -42,6 +42,7 @@ class Body:
         self.scale = max(abs(c[0]) for c in self.comps)
         self.noise = 0.0            # absolute accuracy of one direct evaluation
         self.domain = (-60.0, 60.0)  # where inputs may be drawn
+        self.accuracyClause = True
 
     def signal(self, order: int) -> float:
         """smallest typical size of the order-th derivative (to decide whether a
@@ -115,9 +116,11 @@ class ThermalBody:
         self.R = 2
         self.bad = None
         self.comps = None
-        self.noise = 5e-8       # scipy quad with default epsabs inside WallGo
+        self.noise = 1e-11      # typical accuracy of WallGo's quad (measured 1e-13)
         self.domain = (0.5, 25.0)
         self.scale = 2.0
+        self.refObject: Any = None
+        self.accuracyClause = True
 
     def _one(self, x: float, n: int) -> float:
         key = (self.which, n, x)
@@ -150,11 +153,52 @@ class ThermalBody:
             out[idx + (0,)] = self._one(float(x[idx]), n)
         return out
 
+    def _ref(self, x: float) -> float:
+        """the underlying function of the object under test: WallGo's own function
+        body (a pure function of x), evaluated on a separate plain instance"""
+        key = (self.which, "ref", x)
+        hit = ThermalBody._cache.get(key)
+        if hit is None:
+            if self.refObject is None:
+                import WallGo.PotentialTools as pt  # pylint: disable=import-outside-toplevel
+                cls = pt.JbIntegral if self.which == "Jb" else pt.JfIntegral
+                self.refObject = cls(bUseAdaptiveInterpolation=False)
+            hit = float(np.asarray(self.refObject._functionImplementation(x), dtype=float).ravel()[0])
+            ThermalBody._cache[key] = hit
+        return hit
+
     def __call__(self, x: Any) -> np.ndarray:
-        return self.smooth(x, 0)
+        x = np.asanyarray(x, dtype=float)
+        out = np.zeros(x.shape + (2,))
+        for idx in np.ndindex(x.shape):
+            out[idx + (0,)] = self._ref(float(x[idx]))
+        return out
+
+    def glitchy(self, x: Any, halfWidth: float = 0.0) -> np.ndarray:
+        """WallGo's quadrature occasionally misses by ~1e-3 at isolated arguments
+        (seen: Jb(14.427021442695128), Jf(14.376409587249054); everywhere else it
+        agrees with the harness quadrature and with 30-digit mpmath to 1e-13).
+        That is a matter of the integrals' accuracy, not of the interpolation
+        contract: where it happens, comparisons that differentiate or interpolate
+        the underlying function are not judged."""
+        x = np.asanyarray(x, dtype=float)
+        out = np.zeros(x.shape, dtype=bool)
+        offsets = [0.0] if halfWidth == 0 else list(np.linspace(-halfWidth, halfWidth, 9))
+        for idx in np.ndindex(x.shape):
+            for off in offsets:
+                v = float(x[idx]) + off
+                if v <= 0:
+                    continue
+                if abs(self._ref(v) - self._one(v, 0)) > 1e-9:
+                    out[idx] = True
+                    break
+        return out
 
     def isBad(self, x: Any, pad: float = 0.0) -> np.ndarray:
-        return np.zeros(np.asanyarray(x).shape, dtype=bool)
+        x = np.asanyarray(x, dtype=float)
+        if pad > 0:
+            return self.glitchy(x, pad)
+        return np.zeros(x.shape, dtype=bool)
 
     def bound(self, k: int) -> float:
         return self.BOUNDS[self.which][k]
@@ -186,6 +230,9 @@ class FreeEnergyBody:
         self.noise = 1e-5
         self.domain = (0.6, 1.7)
         self.scale = 10.0
+        # the minimiser's 1e-6 noise divided by a small table spacing dominates the
+        # spline error: "interpolation accuracy" is not a sharp statement here
+        self.accuracyClause = False
 
     def smooth(self, T: Any, n: int = 0) -> np.ndarray:
         T = np.asanyarray(T, dtype=float)
@@ -336,14 +383,35 @@ class _NpProxy:
         return real.genfromtxt(fname, *args, **kwargs)
 
 
+class _Column:
+    """a scalar-valued spline presented with a trailing component axis of length 1"""
+
+    def __init__(self, inner: Any):
+        self.inner = inner
+        self.c = inner.c
+
+    def __call__(self, x: Any) -> np.ndarray:
+        return np.asarray(self.inner(x))[..., None]
+
+    def derivative(self, n: int) -> "_Column":
+        return _Column(self.inner.derivative(n))
+
+
 class Table:
     def __init__(self, xs: np.ndarray, vals: np.ndarray):
         self.xs = xs
         self.vals = vals  # (n, R)
         self.lo = float(xs[0]) if xs.size else float("nan")
         self.hi = float(xs[-1]) if xs.size else float("nan")
-        self.spline = CubicSpline(xs, vals, axis=0, extrapolate=True) \
-            if (xs.size >= 2 and np.all(np.diff(xs) > 0)) else None
+        self.spline = None
+        if xs.size >= 2 and np.all(np.diff(xs) > 0):
+            if vals.shape[1] == 1:
+                # one-dimensional ordinates, exactly as WallGo passes them for a
+                # scalar-valued function (same code path inside scipy)
+                inner = CubicSpline(xs, vals[:, 0], axis=0, extrapolate=True)
+                self.spline = _Column(inner)
+            else:
+                self.spline = CubicSpline(xs, vals, axis=0, extrapolate=True)
 
     def same(self, other: "Table | None") -> bool:
         return (other is not None and self.xs.shape == other.xs.shape
@@ -675,6 +743,7 @@ class InterpMachine(Machine):
             return {"op": op, "form": form, "x": x, "place": place}
         if op == "write_read":
             return {"op": op, "target": rng.choice(["same", "fresh"]),
+                    "samePath": rng.random() < 0.5,
                     "lower": rng.choice(MODES), "upper": rng.choice(MODES),
                     "probe": [rng.random() for _ in range(4)]}
         if op == "read_missing":
@@ -1081,8 +1150,14 @@ class InterpMachine(Machine):
                 sp = tab.spline if order == 0 else tab.spline.derivative(order)
                 exp[mask] = sp(xs[mask]).reshape(mask.sum(), self.R)
                 big = np.abs(tab.spline(xs[mask]).reshape(mask.sum(), self.R)) + tmag
-                tol[mask] = 1e-10 * big if order == 0 else \
-                    (1e-7 if order == 1 else 1e-5) * (big + np.abs(exp[mask]))
+                # a cubic continued far beyond its last interval amplifies the
+                # rounding of its coefficients by (distance / last spacing)^3
+                hEnd = float(tab.xs[1] - tab.xs[0]) if edge == tab.lo \
+                    else float(tab.xs[-1] - tab.xs[-2])
+                amp = (1.0 + np.abs(xs[mask] - edge) / hEnd) ** 3
+                tol[mask] = (1e-10 + 1e-12 * amp)[:, None] * big if order == 0 else \
+                    ((1e-7 if order == 1 else 1e-5) + 1e-12 * amp / DX[order] ** order)[:, None] \
+                    * (big + np.abs(exp[mask]))
         return "value", exp, tol, judged
 
     def _unwrap(self, res: Any, shape: tuple) -> Any:
@@ -1249,6 +1324,11 @@ class InterpMachine(Machine):
 
     def _accuracy(self, xs: np.ndarray, gf: np.ndarray, tab: Table) -> None:
         """value returned agrees with the underlying function to interpolation accuracy"""
+        if not self.body.accuracyClause:
+            return
+        if hasattr(self.body, "glitchy") and np.any(self.body.glitchy(tab.xs)):
+            self.ctx.probes["accuracy_unjudged_glitch_in_underlying_function"] += 1
+            return
         inside = (xs >= tab.lo) & (xs <= tab.hi) & ~self.body.isBad(xs)
         if not np.any(inside) or tab.xs.size < 4:
             return
@@ -1325,7 +1405,10 @@ class InterpMachine(Machine):
     def _op_write_read(self, step: dict, before: Table | None) -> Any:
         if before is None:
             raise Skip()
-        self.nFiles += 1
+        if step.get("samePath") and self.nFiles:
+            self.ctx.probes["roundtrip_through_the_same_path_again"] += 1
+        else:
+            self.nFiles += 1
         path = os.path.join(self.ctx.scratch(), f"table{self.nFiles}.txt")
         self.obj.writeInterpolationTable(path)
         if not os.path.exists(path):
@@ -1365,7 +1448,7 @@ class InterpMachine(Machine):
         if not (relx <= 5e-15 and relv <= 5e-15):
             raise Violation("round-trip", f"values:R={min(self.R, 2)}",
                             f"table read back differs from the one written: abscissae rel "
-                            f"{relx:.2e}, values rel {relv:.2e} (the file holds 15 digits)")
+                            f"{relx:.2e}, values rel {relv:.2e} (the file holds 17 significant digits)")
         # the reader evaluates as the spline through the table it now holds
         # (comparing with the writer's spline instead would measure the
         # conditioning of strongly non-uniform tables, not the round trip)
